@@ -407,7 +407,8 @@ PROPS["C01"] = {
              "forwarder and a reverse proxy in front of the broker; generated: payloads {0, 1, 50 K, 300 K, 2 Mi, 6 Mi} both ways, 1-3 proxies, "
              "max 1-2 peers, first rendezvous answer lost/delayed, 0-3 timed faults out of {SIGKILL, SIGTERM, SIGSTOP d + SIGCONT of a proxy, "
              "relay TCP cut / reset, broker answer lost / delayed, extra proxy}; a fresh proxy is always available in the end. Same byte-exact "
-             "oracle; a whole-system stall (150 s without progress) is recorded as inconclusive, never as a violation. Non-trivial = at least "
+             "oracle; a whole-system stall (150 s without progress) is re-run alone with 300 s, and reported only if it stalls again while a "
+             "fault-free canary session completes (otherwise: inconclusive, environment). Non-trivial = at least "
              "one fault and >= 300 KB of payload."),
     "assumptions": ["the WebRTC hop, Peers, staleness detection and the proxy copy loop are not in tier 1 (model client speaks WebSocket directly to the server)",
                     "a missed real-time deadline is never a violation by itself: a stall is re-run alone with a doubled budget"],
